@@ -20,7 +20,7 @@ impl Monitor for C03 {
 
     fn plan(&self, tier: Tier) -> Plan {
         let mut p = Plan::new(
-            tier.pick(200_000, 12_000_000),
+            tier.pick(1_000_000, 40_000_000),
             "cases as C01 (biased to disjoint match sets and own-lines); judged only when the one-line-look-ahead determinism oracle says in scope; non-trivial = in-scope member with >= 1 quantifier, or in-scope non-member; distinct = hash of (quantifier vector, match matrix, final-newline flag)",
         );
         p.floor_nontrivial = tier.pick(2_000, 20_000);
@@ -36,7 +36,11 @@ impl Monitor for C03 {
         p
     }
 
-    fn gen(&self, env: &Env, _k: u64, rng: &mut Rng) -> DiffCase {
+    fn gen(&self, env: &Env, k: u64, rng: &mut Rng) -> DiffCase {
+        // thorough: the first SWEEP_SIZE case numbers are the complete sweep of small shapes
+        if env.tier == Tier::Thorough && k < SWEEP_SIZE {
+            return sweep_case(k);
+        }
         gen_case(rng, true, env.tier == Tier::Thorough)
     }
 
